@@ -24,15 +24,15 @@ type RecSample struct {
 // RecLimit is a core.Limit that records exactly what it is handed and what it answers.  It either wraps a
 // real algorithm or follows a scripted estimate trajectory (which may contain 0, negative and repeated values).
 type RecLimit struct {
-	mu        sync.Mutex
-	inner     core.Limit
-	script    func(n int) int
-	est       int
-	samples   []RecSample
-	listeners []core.LimitChangeListener
-	Clock     func() int64 // optional logical clock
-	OnEnter   func()       // optional schedule point at OnSample entry (called without the lock)
-	OnEstimate func()      // optional schedule point inside EstimatedLimit (the limiter reads the estimate right before SetLimit)
+	mu         sync.Mutex
+	inner      core.Limit
+	script     func(n int) int
+	est        int
+	samples    []RecSample
+	listeners  []core.LimitChangeListener
+	Clock      func() int64 // optional logical clock
+	OnEnter    func()       // optional schedule point at OnSample entry (called without the lock)
+	OnEstimate func()       // optional schedule point inside EstimatedLimit (the limiter reads the estimate right before SetLimit)
 }
 
 // NewScriptedLimit returns a RecLimit whose estimate after the n-th sample (1-based) is script(n).
